@@ -16,11 +16,11 @@ def unit_axis_times_length(h, name, lmin=1e-3, lmax=1e6):
         h.unit(u)
         h.sqrt_hint(l)
     else:
-        n = math.sqrt(float(nsq(u)))
-        if n < 1e-3:
+        n2 = nsq(u)
+        if (n2.val if hasattr(n2, 'val') else float(n2)) < 1e-6:
             from symreal.api import AssumptionFailed
             raise AssumptionFailed()
-        u = u / n
+        u = unitize(u)
     return h.arr([l * u[0], l * u[1], l * u[2]]), u, l
 
 
@@ -208,7 +208,7 @@ def _rotvec(h, lo=1e-3, hi=6.28):
         h.unit(u)
         h.sqrt_hint(th)
     else:
-        u = u / math.sqrt(float(nsq(u)))
+        u = unitize(u)
     return h.arr([th * u[0], th * u[1], th * u[2]]), u, th
 
 
@@ -225,7 +225,7 @@ def _(h):
         h.unit(u)
         h.sqrt_hint(2 * hf)
     else:
-        u = u / math.sqrt(float(nsq(u)))
+        u = unitize(u)
     return UnitQuaternion.EulerVec(h.arr([2 * hf * u[0], 2 * hf * u[1], 2 * hf * u[2]])).vec
 
 
@@ -240,7 +240,7 @@ def _(h):
     if h.sym:
         h.unit(u)
     else:
-        u = u / math.sqrt(float(nsq(u)))
+        u = unitize(u)
     return base.rodrigues(u, h.angle('th'))
 
 
@@ -284,7 +284,7 @@ def _(h):
     if h.sym:
         h.unit(u)
     else:
-        u = u / math.sqrt(float(nsq(u)))
+        u = unitize(u)
     v = h.vec('v', 3, -1e3, 1e3)
     return base.trexp(h.arr([v[0], v[1], v[2], u[0], u[1], u[2]]), h.angle('th'))
 
